@@ -158,7 +158,7 @@ def oracle(ctx):
         for atm in range(3):
             for justify in ('r', 'l'):
                 for chars, sp in ((string.ascii_lowercase, True), (string.ascii_uppercase, True), ('klmn', True), (string.ascii_lowercase, False)):
-                    for (nx, ny, nz) in ([(1, 1, 1), (3, 2, 4), (10, 10, 3), (11, 9, 12)] + ([(34, 30, 2), (5, 5, 101)] if ctx.thorough else [(rng.randint(1, 12), rng.randint(1, 12), rng.randint(1, 30))])):
+                    for (nx, ny, nz) in ([(1, 1, 1), (3, 2, 4), (10, 10, 3), (11, 9, 12)] + [(1, 1, k) for k in (18, 19, 20, 45, 46, 47, 98, 99, 100, 120)] + [(1, 2, k) for k in range(21, 45, 4)] + ([(34, 30, 2), (5, 5, 101)] if ctx.thorough else [(rng.randint(1, 12), rng.randint(1, 12), rng.randint(1, 30))])):
                         inp = {'convention': conv, 'atmos_type': atm, 'justify': justify, 'chars': chars, 'spaces': sp, 'n': [nx, ny, nz]}
                         ng += 1
                         ctx.count(('geo', str(inp)))
@@ -169,6 +169,13 @@ def oracle(ctx):
                             continue        # explicit naming error: allowed when the name space is exhausted
                         except Exception as e:
                             ctx.failure('constructed-geometries', 'rectangular:unexpected-exception', inp, type(e).__name__, 'geometry or NamingConventionError'); continue
+                        # the geometry has every layer, column and block that was asked for (a name collision
+                        # must not silently drop one: the by-name dictionaries replace / ignore duplicates)
+                        nblk = nx * ny * nz + (0 if atm == 2 else (1 if atm == 0 else nx * ny))
+                        got_counts = (len(geo.layerlist), len(geo.layer), len(geo.columnlist), len(geo.column), len(geo.block_name_list))
+                        if got_counts != (nz + 1, nz + 1, nx * ny, nx * ny, nblk):
+                            ctx.failure('constructed-geometries', 'rectangular:layers-columns-or-blocks-missing', inp, repr(got_counts),
+                                        '(layers, layer dict, columns, column dict, blocks) = %r' % ((nz + 1, nz + 1, nx * ny, nx * ny, nblk),)); continue
                         names = geo.block_name_list
                         if len(set(names)) != len(names) or any(len(b) != 5 for b in names):
                             ctx.failure('constructed-geometries', 'block_name_list:duplicate-or-malformed', inp, 'duplicates or wrong length', 'distinct 5-character names'); continue
@@ -231,4 +238,25 @@ def replay(ctx, data):
             return False
         except mg.NamingConventionError: return False
         except Exception: return True
+    if 'n' in inp and 'convention' in inp:
+        nx, ny, nz = inp['n']; atm = inp['atmos_type']
+        try:
+            geo = mg.mulgrid().rectangular([10.] * nx, [10.] * ny, [5.] * nz, convention=inp['convention'], atmos_type=atm,
+                                           justify=inp['justify'], chars=inp['chars'], spaces=inp['spaces'])
+        except mg.NamingConventionError: return False
+        except Exception: return True
+        nblk = nx * ny * nz + (0 if atm == 2 else (1 if atm == 0 else nx * ny))
+        names = geo.block_name_list
+        counts = (len(geo.layerlist), len(geo.layer), len(geo.columnlist), len(geo.column), len(names))
+        print('replay', inp, counts)
+        if counts != (nz + 1, nz + 1, nx * ny, nx * ny, nblk): return True
+        if len(set(names)) != len(names) or any(len(b) != 5 for b in names): return True
+        for lay in geo.layerlist:
+            for col in geo.columnlist:
+                b = geo.block_name(lay.name, col.name)
+                if geo.column_name(b) != col.name or geo.layer_name(b) != lay.name: return True
+        for objs, length in ((geo.columnlist, geo.colname_length), (geo.layerlist, geo.layername_length), (geo.nodelist, geo.colname_length)):
+            nms = [o.name for o in objs]
+            if len(set(nms)) != len(nms) or any(len(x) != length for x in nms): return True
+        return False
     return True
